@@ -133,6 +133,8 @@ pub struct PeerOut {
     pub predicted_corrected: u64,
     pub sticky2: u64,
     pub lockstep_stalls: u64,
+    /// tick of the last call that did not advance the frame
+    pub last_stall_tick: u32,
     /// Op::Restart carried out on this peer (new process on the same address during the handshake)
     pub restarts: u32,
     /// calls of the lockstep wait helper during which a packet arrived after the helper's first poll
@@ -664,6 +666,7 @@ pub fn run_typed<I: HInp, P: InputPredictor<I> + 'static>(sc: &Scenario, opts: &
         };
         let mut game = Game::new(nplayers, sc.max_pred as usize, true);
         game.own_snapshots = sc.own_snapshots;
+        game.no_checksum = sc.peers[p].no_checksum;
         for op in &sc.ops {
             if let Op::Corrupt { peer, frame } = op {
                 if *peer as usize == p {
@@ -1151,6 +1154,7 @@ fn tick_peer<I: HInp, P: InputPredictor<I> + 'static>(
             }
             if d == 0 {
                 pe.out.stalls += 1;
+                pe.out.last_stall_tick = tick;
                 if mp == 0 {
                     pe.out.lockstep_stalls += 1;
                     if !advs.is_empty() {
